@@ -355,9 +355,11 @@ type recorder struct {
 
 type peerKey struct{}
 
+// the recorder of the call an execution belongs to: the calls that share a node with the main call of a
+// run (the concurrent peer call, the later call) carry their own recorder in their context
 func (rc *recorder) pick(ctx context.Context) *recorder {
-	if rc.peer != nil && ctx.Value(peerKey{}) != nil {
-		return rc.peer
+	if r, ok := ctx.Value(peerKey{}).(*recorder); ok && r != nil {
+		return r
 	}
 	return rc
 }
@@ -814,23 +816,26 @@ type Chunk struct {
 }
 
 type RunObs struct {
-	Mode   string  `json:"mode"`  // invoke | stream | concat
-	Host   string  `json:"host"`  // standalone | graph
-	Entry  string  `json:"entry,omitempty"` // graph-hosted: "" = Invoke / Stream, collect = Collect (mode concat: the graph runs in stream mode and concatenates its output itself), transform = Transform; the message arrives as a stream
-	Class  string  `json:"class"` // msgs | err | panic | chunks | hang | setup
-	Msgs   []*Msg  `json:"msgs,omitempty"`
-	Err    int     `json:"err,omitempty"`
-	ErrAs  bool    `json:"err_as,omitempty"` // the error (call error or the stream's error item) unwraps to the tool's own error value (errors.As)
-	ErrMsg string  `json:"err_msg,omitempty"`
-	Chunks []Chunk `json:"chunks,omitempty"`
-	Fin    *int    `json:"fin,omitempty"`   // stream ended with this error class (nil = EOF)
-	CCls   string  `json:"ccls,omitempty"`  // none | msgs | err : framework concatenation of the received chunks
-	CMsgs  []*Msg  `json:"cmsgs,omitempty"` // (nil entry = nil message)
-	CErr   int     `json:"cerr,omitempty"`
-	CAgain string  `json:"cagain,omitempty"` // "" = concatenating the same frames a second time (what a second consumer of a copied stream does) gave the same list; otherwise what it gave
-	Pi     []int   `json:"pi"`
-	Exec   []xcall `json:"exec"`
-	Leaked int     `json:"leaked,omitempty"` // tool stream producers still blocked after the run
+	Mode      string  `json:"mode"`            // invoke | stream | concat
+	Host      string  `json:"host"`            // standalone | graph
+	Entry     string  `json:"entry,omitempty"` // graph-hosted: "" = Invoke / Stream, collect = Collect (mode concat: the graph runs in stream mode and concatenates its output itself), transform = Transform; the message arrives as a stream
+	Class     string  `json:"class"`           // msgs | err | panic | chunks | hang | setup
+	Msgs      []*Msg  `json:"msgs,omitempty"`
+	Err       int     `json:"err,omitempty"`
+	ErrAs     bool    `json:"err_as,omitempty"` // the error (call error or the stream's error item) unwraps to the tool's own error value (errors.As)
+	ErrMsg    string  `json:"err_msg,omitempty"`
+	Chunks    []Chunk `json:"chunks,omitempty"`
+	Fin       *int    `json:"fin,omitempty"`   // stream ended with this error class (nil = EOF)
+	CCls      string  `json:"ccls,omitempty"`  // none | msgs | err : framework concatenation of the received chunks
+	CMsgs     []*Msg  `json:"cmsgs,omitempty"` // (nil entry = nil message)
+	CErr      int     `json:"cerr,omitempty"`
+	Disturbed string  `json:"disturbed,omitempty"` // "" = the answer (the received frames) read again after a LATER call on the same node had returned is what it was; otherwise what it had become
+	rawMsgs   []*schema.Message
+	rawFrames [][]*schema.Message
+	CAgain    string  `json:"cagain,omitempty"` // "" = concatenating the same frames a second time (what a second consumer of a copied stream does) gave the same list; otherwise what it gave
+	Pi        []int   `json:"pi"`
+	Exec      []xcall `json:"exec"`
+	Leaked    int     `json:"leaked,omitempty"` // tool stream producers still blocked after the run
 }
 
 var markerRe = regexp.MustCompile(`TOOLERR#(\d+)#`)
@@ -1008,7 +1013,7 @@ func observe(o *RunObs, mode string, n int, inv func() ([]*schema.Message, error
 		case err != nil:
 			o.Class, o.Err, o.ErrMsg, o.ErrAs = "err", classify(err), short(err.Error()), unwraps(err)
 		default:
-			o.Class, o.Msgs = "msgs", msgsOf(out)
+			o.Class, o.Msgs, o.rawMsgs = "msgs", msgsOf(out), out
 		}
 	default:
 		var sr *schema.StreamReader[[]*schema.Message]
@@ -1028,6 +1033,7 @@ func observe(o *RunObs, mode string, n int, inv func() ([]*schema.Message, error
 			o.Class, o.Err, o.ErrMsg, o.ErrAs = "err", classify(err), short(err.Error()), unwraps(err)
 		default:
 			o.Class = "chunks"
+			o.rawFrames = raw
 			if o.Fin == nil {
 				o.setConcat(raw)
 			} else {
@@ -1135,7 +1141,7 @@ func (c *Case) peerCase() *Case {
 }
 
 // host: standalone | graph | shared (standalone, with a second call running concurrently on the same node)
-func runOne(c *Case, mode, host string, entry ...string) (o RunObs, peer *RunObs, pc *Case) {
+func runOne(c *Case, mode, host string, entry ...string) (o RunObs, peer *RunObs, pc *Case, late *RunObs, lc *Case) {
 	o.Mode, o.Host = mode, host
 	if len(entry) > 0 {
 		o.Entry = entry[0]
@@ -1245,7 +1251,7 @@ func runOne(c *Case, mode, host string, entry ...string) (o RunObs, peer *RunObs
 		pc = c.peerCase()
 		rc.peer = &recorder{c: pc}
 		peer = &RunObs{Mode: mode, Host: "shared-peer"}
-		pctx := context.WithValue(ctx, peerKey{}, true)
+		pctx := context.WithValue(ctx, peerKey{}, rc.peer)
 		pmsg := pc.message()
 		peerDone = make(chan struct{})
 		pnopts, perr := pc.nodeOptions(rc)
@@ -1269,7 +1275,88 @@ func runOne(c *Case, mode, host string, entry ...string) (o RunObs, peer *RunObs
 	if peer != nil {
 		rc.peer.settle(peer, pc)
 	}
+	if host == "shared" && (o.Class == "msgs" || o.Class == "chunks" || o.Class == "err") {
+		// ... and a LATER call on the same node, after the first two have returned: it is answered on its own
+		// calls, tool list and tool options (nothing of an earlier call survives in the node), and what the
+		// earlier call returned is not touched by it
+		lc = c.lateCase()
+		lrec := &recorder{c: lc}
+		late = &RunObs{Mode: mode, Host: "shared-late"}
+		lctx := context.WithValue(ctx, peerKey{}, lrec)
+		lmsg := lc.message()
+		lnopts, lerr := lc.nodeOptions(rc)
+		if lerr != nil {
+			late, lc = nil, nil
+			return
+		}
+		observe(late, mode, len(lc.Calls),
+			func() ([]*schema.Message, error) { return tn.Invoke(lctx, lmsg, lnopts...) },
+			func() (*schema.StreamReader[[]*schema.Message], error) { return tn.Stream(lctx, lmsg, lnopts...) })
+		lrec.settle(late, lc)
+		switch {
+		case o.rawMsgs != nil:
+			if now := msgsOf(o.rawMsgs); !msgsEqual(now, o.Msgs) {
+				o.Disturbed = js(now)
+			}
+		case o.rawFrames != nil:
+			var now []Chunk
+			for _, ms := range o.rawFrames {
+				for pos, m := range ms {
+					if m != nil {
+						ct := m.Content
+						if m.Role != schema.Tool {
+							ct = "<role " + string(m.Role) + ">" + ct
+						}
+						now = append(now, Chunk{pos, ct, m.ToolCallID})
+					}
+				}
+			}
+			var was []Chunk
+			for _, ch := range o.Chunks {
+				if ch.Pos != 9999 {
+					was = append(was, ch)
+				}
+			}
+			if js(now) != js(was) {
+				o.Disturbed = js(now)
+			}
+		}
+	}
 	return
+}
+
+// the later call of a shared-node run: the peer's calls, its own tool options, and - if the call brings a tool
+// list - either that list without its first tool (a name that only that tool answered is unknown to the later
+// call) or, for an odd number of calls, no list at all (the configured tools answer again)
+func (c *Case) lateCase() *Case {
+	p := *c.peerCase()
+	seq := p.optSeq()
+	p.CallTools, p.ToolOpts, p.OptSeq = nil, nil, nil
+	lastList := -1
+	for i, o := range seq {
+		if o.List != nil {
+			lastList = i
+		}
+	}
+	noList := len(c.Calls)%2 == 1
+	for i, o := range seq {
+		if o.isList() && noList {
+			continue
+		}
+		if !o.isList() {
+			tags := make([]string, len(o.Tags))
+			for j, t := range o.Tags {
+				tags[j] = t + "'"
+			}
+			o.Tags = tags
+		}
+		if i == lastList && len(*o.List) > 0 {
+			l := append([]ToolDef{}, (*o.List)[1:]...)
+			o.List = &l
+		}
+		p.OptSeq = append(p.OptSeq, o)
+	}
+	return &p
 }
 
 // The streamed form with several consumers: the node's output stream is copied (by the graph, for a
@@ -1757,7 +1844,7 @@ func (c *Case) spec(streamed bool) spec {
 			continue
 		}
 		tag := c.tag(ot) // the options of the type the tool reads, in the order given
-		if cl.K < 0 { // arguments the tool cannot parse: it fails when called, its body never runs
+		if cl.K < 0 {    // arguments the tool cannot parse: it fails when called, its body never runs
 			s.errs = append(s.errs, 0)
 			callFails(i, 0)
 			s.msgs = append(s.msgs, nil)
@@ -1853,7 +1940,9 @@ func (c *Case) oracle(o *RunObs) (string, string) {
 	if s.pre {
 		wantExec = 0
 	}
-	if len(o.Exec) != wantExec {
+	// (a call that FAILS: the property asks for the failing tool's error, not that every sibling ran; no call is
+	// executed twice, and none at all if the message is rejected)
+	if len(o.Exec) > wantExec || (len(o.Exec) != wantExec && o.Class != "err") {
 		return fmt.Sprintf("%s: %d tool executions for %d calls", tag, len(o.Exec), wantExec), "exec-count"
 	}
 	for _, x := range o.Exec {
@@ -1866,6 +1955,13 @@ func (c *Case) oracle(o *RunObs) (string, string) {
 		if !found {
 			return fmt.Sprintf("%s: execution %v matches no call (name, arguments, call id in ctx, tool options)", tag, x), "exec-foreign"
 		}
+	}
+	if o.Disturbed != "" {
+		was := js(o.Msgs)
+		if o.Class == "chunks" {
+			was = js(o.Chunks)
+		}
+		return fmt.Sprintf("%s: the call returned %s; after a LATER call on the same node had returned, the very same answer reads %s", tag, was, o.Disturbed), "answer-disturbed-by-later-call"
 	}
 	if o.CAgain != "" {
 		return fmt.Sprintf("%s: the framework's concatenation of the received frames gave %s; concatenating the same frames once more (a second consumer of the copied stream) gives %s", tag, js(o.CMsgs), o.CAgain), "stream-concat-not-repeatable"
@@ -1968,6 +2064,7 @@ func genTool(r *lib.Rng, name string) ToolDef {
 	}
 	return d
 }
+
 var tagPool = []string{"<o1>", "<o2>", "<x>", "", "~<a1>", "~<a2>", "~"}
 
 // another way of building a tool with the same attitude towards its options
@@ -2254,7 +2351,6 @@ func (c *Case) goroutinePanic() bool {
 	return false
 }
 
-
 // the same case under another schedule: the panicking executions finish last (the caller is
 // already waiting for the goroutines when they panic), everything else answers at once
 func (c *Case) panicLast() *Case {
@@ -2351,7 +2447,7 @@ func (engine) runCase(c *Case) lib.Result {
 			continue
 		}
 		at(p[0] + "/" + p[1] + p[2])
-		o, peer, pc := runOne(c, p[0], p[1], p[2])
+		o, peer, pc, late, lc := runOne(c, p[0], p[1], p[2])
 		obs = append(obs, o)
 		if t := o.coq(); t != "" {
 			terms = append(terms, t)
@@ -2365,6 +2461,12 @@ func (engine) runCase(c *Case) lib.Result {
 			obs = append(obs, *peer)
 			if res.Oracle == "" {
 				res.Oracle, res.Sig = pc.oracle(peer)
+			}
+		}
+		if late != nil {
+			obs = append(obs, *late)
+			if res.Oracle == "" {
+				res.Oracle, res.Sig = lc.oracle(late)
 			}
 		}
 		if res.Oracle != "" {
@@ -2619,7 +2721,7 @@ func childProbes(c *Case) lib.Result {
 					which = " of the same ids on the calls in reverse order (the peer call of the shared-node runs)"
 				}
 				fmt.Fprintf(os.Stderr, "C17-CHILD %s/%s repetition %d%s (%s)\n", mode, host, i, which, sched)
-				o, _, _ := runOne(rcase, mode, host)
+				o, _, _, _, _ := runOne(rcase, mode, host)
 				if w, sig := pc.oracle(&o); w != "" {
 					o.Mode = mode + "(repeated)"
 					obs = append(obs, o)
